@@ -6,8 +6,8 @@ Search: interpreter builtins vs real bash 5.2 on all generated cases (stdout byt
 import re
 from vcheck import coq_bytes, coq_list
 
-CLASSES = ["backslash_percent", "b_backslash_c", "b_quote_escape", "b_width_ignored", "char_constant_argument",
-           "echo_bare_octal", "echo_combined_options", "incomplete_directive_output", "invalid_number_argument",
+CLASSES = ["b_backslash_c", "b_quote_escape", "char_constant_argument",
+           "echo_bare_octal", "incomplete_directive_output", "invalid_number_argument",
            "multiple_flags_rejected", "percent_with_flags_or_width", "precision_rejected", "sign_flag_on_unsigned",
            "unicode_escape_nonscalar", "unsigned_beyond_int64", "width_counts_runes", "zero_flag_on_string"]
 
@@ -106,43 +106,6 @@ def run(ctx):
                 "fewer arguments than directives up to several rounds of reuse; echo with -n/-e/-E sequences; a class stream injecting each "
                 "listed known-finding mechanism; a malformed stream of random bytes over a %/\\/digit/flag-rich alphabet; pinned witnesses. "
                 "thorough adds every format of length <= 4 over a 12-letter alphabet. non-trivial = distinct case containing a directive or an escape")
-    # ---------------- search: interpreter vs bash, verdict computed in the harness
-    ood_skipped = 0
-    hit = set()
-    for r in rows:
-        key = (r["kind"], r["fmt"], tuple(r["args"]))
-        nontrivial = ("25" in r["fmt"] or "5c" in r["fmt"]) if r["kind"] == "printf" else any("5c" in a for a in r["args"])
-        ctx.count(1, [key] if nontrivial else [])
-        if not r["fails"]:
-            continue
-        hard = [c for c in r["fails"] if c in ("interp_panics", "interp_hangs", "interp_run_error", "format_panics")]
-        detail = {"go_stdout": r["iout"], "go_status": r["ist"], "bash_stdout": r["bout"], "bash_status": r["bst"],
-                  "classes": r["classes"], "ood": r["ood"], "stream": r["stream"]}
-        if hard:
-            for c in hard:
-                ctx.fail(c, show(r), None, detail)
-        elif r["class"]:
-            hit.add(r["class"])
-            for c in r["fails"]:
-                ctx.fail(c, show(r), r["class"], detail)
-        elif r["ood"]:
-            ood_skipped += 1   # uses a feature the property does not speak about (length modifiers, %q, '*', '#', options)
-        else:
-            for c in r["fails"]:
-                ctx.fail(c, show(r), None, detail)
-    # every listed class must still be confirmed by its pinned witness
-    pinned_ok = {c: False for c in CLASSES}
-    for r in rows:
-        if r["stream"] == "pinned" and r["fails"] and r["class"] in pinned_ok:
-            pinned_ok[r["class"]] = True
-    ctx.extra["known_classes_confirmed_by_pinned_witness"] = pinned_ok
-    ctx.extra["failing_cases_outside_property_domain_skipped"] = ood_skipped
-    for r in rows:
-        if r["stream"] == "pinned-fixed" and r["fails"]:
-            ctx.fail("repaired_case_fails_again", show(r), None, {"go_stdout": r["iout"], "bash_stdout": r["bout"]})
-    for r in rows[:2] + [x for x in rows if x["stream"] == "scope"][:3]:
-        ctx.sample({"argv": show(r)["argv"], "go_stdout_hex": r["iout"], "go_status": r["ist"], "bash_stdout_hex": r["bout"],
-                    "bash_status": r["bst"], "Format_out_hex": r["fout"], "Format_consumed": r["fcons"]})
     # ---------------- code legs + oracle leg inside the Coq kernel
     m_fmt, m_nil, m_int, m_spec, scope_twin = [], [], [], [], []
     n_printf = n_scope = 0
@@ -184,6 +147,8 @@ def run(ctx):
             ctx.broken.append(("correspondence:code-eval", msg))
             return
         n_printf += sum(1 for r in part if r["kind"] == "printf")
+        for r, v in zip(part, masks):
+            r["_mask"] = v
         lists = [[i for i, v in enumerate(masks) if v & bit] for bit in (1, 2, 4, 8, 16)]
         for lst, acc, what in ((lists[0], m_fmt, "Format"), (lists[1], m_nil, "Format(nil args)"),
                                (lists[2], m_int, "builtin"), (lists[3], m_spec, "spec-vs-bash")):
@@ -197,6 +162,49 @@ def run(ctx):
             if r["classes"] or r["fails"]:
                 scope_twin.append({"case": show(r), "classes": r["classes"], "fails": r["fails"],
                                    "interp": [r["iout"], r["ist"]], "bash": [r["bout"], r["bst"]]})
+    # ---------------- search: interpreter vs bash, verdict computed in the harness
+    ood_skipped = 0
+    hit = set()
+    for r in rows:
+        key = (r["kind"], r["fmt"], tuple(r["args"]))
+        nontrivial = ("25" in r["fmt"] or "5c" in r["fmt"]) if r["kind"] == "printf" else any("5c" in a for a in r["args"])
+        ctx.count(1, [key] if nontrivial else [])
+        if not r["fails"]:
+            continue
+        hard = [c for c in r["fails"] if c in ("interp_panics", "interp_hangs", "interp_run_error", "format_panics")]
+        detail = {"go_stdout": r["iout"], "go_status": r["ist"], "bash_stdout": r["bout"], "bash_status": r["bst"],
+                  "classes": r["classes"], "ood": r["ood"], "stream": r["stream"]}
+        if hard:
+            for c in hard:
+                ctx.fail(c, show(r), None, detail)
+        elif r["class"] and (r["_mask"] & 7) == 0:
+            # attributed to a listed class only if the input is in the class AND the model (which contains the
+            # listed defect) reproduces what the Go code wrote: Format bytes/consumed/error, nil-args bytes, builtin bytes+status
+            hit.add(r["class"])
+            for c in r["fails"]:
+                ctx.fail(c, show(r), r["class"], detail)
+        elif r["class"]:
+            detail["model_disagrees_with_go_on_in_class_input"] = True
+            for c in r["fails"]:
+                ctx.fail(c, show(r), None, detail)
+        elif r["ood"]:
+            ood_skipped += 1   # uses a feature the property does not speak about (length modifiers, %q, '*', '#', options)
+        else:
+            for c in r["fails"]:
+                ctx.fail(c, show(r), None, detail)
+    # every listed class must still be confirmed by its pinned witness
+    pinned_ok = {c: False for c in CLASSES}
+    for r in rows:
+        if r["stream"] == "pinned" and r["fails"] and r["class"] in pinned_ok:
+            pinned_ok[r["class"]] = True
+    ctx.extra["known_classes_confirmed_by_pinned_witness"] = pinned_ok
+    ctx.extra["failing_cases_outside_property_domain_skipped"] = ood_skipped
+    for r in rows:
+        if r["stream"] == "pinned-fixed" and r["fails"]:
+            ctx.fail("repaired_case_fails_again", show(r), None, {"go_stdout": r["iout"], "bash_stdout": r["bout"]})
+    for r in rows[:2] + [x for x in rows if x["stream"] == "scope"][:3]:
+        ctx.sample({"argv": show(r)["argv"], "go_stdout_hex": r["iout"], "go_status": r["ist"], "bash_stdout_hex": r["bout"],
+                    "bash_status": r["bst"], "Format_out_hex": r["fout"], "Format_consumed": r["fcons"]})
     ctx.leg("code:expand.Format(fmt,args) vs Expand/Format.v format (bytes, consumed, error)", n_printf, m_fmt)
     ctx.leg("code:expand.Format(fmt,nil) vs model (escapes only)", n_printf, m_nil)
     ctx.leg("code:interp printf/echo builtins vs model printf_builtin/echo_builtin (stdout, status)", len(rows), m_int)
